@@ -188,3 +188,23 @@ impl HostBytes {
   vec_as_slice args
 @*/
 /*@end*/
+
+// ---- host functions WITH continuation arguments, as wholes (rules R9 + R11: `ZValue::Thunk(_)` sub-patterns weakened to `_`) ----
+/*@fn lang/dynamics/src/impls.rs :: fn str_get_branch
+  plain
+  vec_as_slice args
+  weaken_thunk_patterns
+@*/
+/*@end*/
+/*@fn lang/dynamics/src/impls.rs :: fn str_split_at_branch
+  plain
+  vec_as_slice args
+  weaken_thunk_patterns
+@*/
+/*@end*/
+/*@fn lang/dynamics/src/impls.rs :: fn char_from_codepoint_branch
+  plain
+  vec_as_slice args
+  weaken_thunk_patterns
+@*/
+/*@end*/
